@@ -67,10 +67,17 @@ def digitsTail : Bool → List Char → Bool
     else if c == '_' && !us then digitsTail true cs
     else false
 
-/-- Python `int(s)`: surrounding whitespace, an optional sign, decimal digits (of any script)
-with single underscores between them. -/
+/-- what `int()` skips around the number: not quite `str.isspace` (U+001C..U+001F stay) -/
+def isIntSpace (c : Char) : Bool := pyIntSpace.contains c.toNat
+
+def stripIntL (s : List Char) : List Char := s.dropWhile isIntSpace
+
+def stripInt (s : List Char) : List Char := (stripIntL (stripIntL s).reverse).reverse
+
+/-- Python `int(s)`: surrounding whitespace (its own notion), an optional sign, decimal digits (of
+any script) with single underscores between them. -/
 def pyInt? (s : List Char) : Option Int :=
-  let t := strip s
+  let t := stripInt s
   let neg := t.head? == some '-'
   let body := if t.head? == some '-' || t.head? == some '+' then t.tail else t
   match body with
